@@ -62,7 +62,7 @@ pub fn campaigns(ctx: &Ctx) -> Stats {
         Some("images up to 4x4 (quick) / 6x6 (thorough), filters up to 3x3 (<= image), both strides 1..3 independently, depth and filter count 1..2 (quick) / 1..3 (thorough), batch absent/[1]/[2]/[3]/[2,2]; exact integer data"),
         |i| Some(fwd(&cfgs[i as usize])),
     ));
-    let total = t.pick(3000u64, 100000);
+    let total = t.pick(15000u64, 300000);
     let strat = || {
         (prop::collection::vec(1..=3usize, 0..=2), 1..=3usize, 1..=9usize, 1..=9usize, 1..=4usize, 1..=4usize, 1..=4usize, 1..=4usize, 1..=4usize, any::<u64>())
             .prop_map(|(batch, depth, rows, cols, count, fr, fc, sr, sc, vseed)| ConvRecipe { batch, depth, rows, cols, count, fr, fc, sr, sc, vseed })
